@@ -738,6 +738,43 @@ theorem render_piece_denotes (c r1 r2 : Nat) (hc : 1 ≤ c ∧ c ≤ Facts.MaxCo
     · rintro ⟨g1, _, g3, g4⟩
       exact Or.inr ⟨c, r1, c, r2, hq, by omega, by omega, by omega, by omega⟩
 
+/-- **`squashSqref` preserves the denotation, string level, whole lists**: for the
+cells of one in-grid column in strictly ascending in-grid rows, the reference strings
+`squashSqref` returns denote — by the strict grammar, i.e. as `flatSqref` would
+enumerate them again — exactly the input cells. -/
+theorem squash_refs_denote (c : Nat) (hc : 1 ≤ c ∧ c ≤ Facts.MaxColumns) (cells : List Cell)
+    (hcol : ∀ x ∈ cells, x.1 = (c : Int))
+    (hrow : ∀ x ∈ cells, 1 ≤ x.2 ∧ x.2 ≤ (Facts.TotalRows : Int))
+    (hasc : List.Pairwise (fun a b : Cell => a.2 < b.2) cells) (p : Cell) :
+    (∃ ref ∈ squashSqref cells, refHas ref p) ↔ p ∈ cells := by
+  rw [← squash_denotes (c : Int) cells hcol hasc p]
+  unfold squashSqref
+  have hwf := squashPieces_wf (c : Int) cells hcol hasc
+  have key : ∀ piece ∈ squashPieces cells, (refHas (renderPiece piece) p ↔ pieceHas piece p) := by
+    intro piece hpc
+    have hw := hwf piece hpc
+    cases piece with
+    | one q =>
+      obtain ⟨hq, hq1⟩ := hw
+      have hr := hrow q hq
+      have e : q = ((c : Int), ((q.2.toNat : Nat) : Int)) := Prod.ext hq1 (by simp only []; omega)
+      rw [e]
+      exact (render_piece_denotes c q.2.toNat q.2.toNat hc (by omega) (by omega) (Nat.le_refl _) p).1
+    | span a b =>
+      obtain ⟨ha, hb, ha1, hb1, hle⟩ := hw
+      have hra := hrow a ha
+      have hrb := hrow b hb
+      have ea : a = ((c : Int), ((a.2.toNat : Nat) : Int)) := Prod.ext ha1 (by simp only []; omega)
+      have eb : b = ((c : Int), ((b.2.toNat : Nat) : Int)) := Prod.ext hb1 (by simp only []; omega)
+      rw [ea, eb]
+      exact (render_piece_denotes c a.2.toNat b.2.toNat hc (by omega) (by omega) (by omega) p).2
+  constructor
+  · rintro ⟨ref, hr, hh⟩
+    obtain ⟨piece, hpc, rfl⟩ := List.mem_map.mp hr
+    exact ⟨piece, hpc, (key piece hpc).mp hh⟩
+  · rintro ⟨piece, hpc, hh⟩
+    exact ⟨renderPiece piece, List.mem_map.mpr ⟨piece, hpc, rfl⟩, (key piece hpc).mpr hh⟩
+
 /-! ## `mergeCellsParser` on a sheet with merged cells -/
 
 /-- **spelling independence of the redirect, full strength**: whatever the merged-cell
